@@ -764,6 +764,42 @@ def r07l(ctx: Context) -> None:
             return False
         return found
 
+    def field_under_kind(func: FuncInfo, local: str, field: str, name: str) -> bool:
+        """``local`` holds the record a helper of the class built for the token ``name``; its ``field`` is truthy only
+        in records built under a positive kind fact about the token"""
+        bindings = [n.value for n in walk_local(func.node) if isinstance(n, (ast.Assign, ast.AnnAssign)) and getattr(n, "value", None) is not None
+                    and any(isinstance(t, ast.Name) and t.id == local for t in (n.targets if isinstance(n, ast.Assign) else [n.target]))]
+        if not bindings:
+            return False
+        for value in bindings:
+            if not isinstance(value, ast.Call):
+                return False
+            site = site_for(prog, func, value)
+            if site is None or len(site.targets) != 1 or site.targets[0].cls != func.cls:
+                return False
+            helper = site.targets[0]
+            bound = Program.bind_args(helper, value, skip_self=helper.kind in ("instance", "class"))
+            handed = [param for param, arg in bound.items() if isinstance(arg, ast.Name) and arg.id == name]
+            if not handed:
+                return False
+            for ret_stmt in [n for n in walk_local(helper.node) if isinstance(n, ast.Return) and n.value is not None]:
+                built = ret_stmt.value
+                if not isinstance(built, ast.Call):
+                    return False
+                element = next((k.value for k in built.keywords if k.arg == field), None)
+                if element is None:
+                    record = prog.infer(helper, built)
+                    fields = [s.target.id for s in record[1].node.body if isinstance(s, ast.AnnAssign) and isinstance(s.target, ast.Name)] if record and record[0] == "cls" else []
+                    if field in fields and fields.index(field) < len(built.args):
+                        element = built.args[fields.index(field)]
+                if element is None:
+                    return False
+                if isinstance(element, ast.Constant) and not element.value:
+                    continue
+                if not has_kind(helper, ret_stmt, handed[0]):
+                    return False
+        return True
+
     def established(func: FuncInfo, node: ast.AST, name: str, depth: int = 0) -> Optional[str]:
         """why the token called ``name`` has a line of its own at ``node`` (None: not established)"""
         annotation = next((a.annotation for a in func.node.args.args if a.arg == name), None)  # type: ignore[attr-defined]
@@ -779,6 +815,8 @@ def r07l(ctx: Context) -> None:
             for sub in ast.walk(test):
                 if isinstance(sub, ast.Name) and sub.id != name and sub.id not in func.params and set_under_kind(func, sub.id, name):
                     return f"under '{sub.id}', which is only set for a known kind of token"
+                if isinstance(sub, ast.Attribute) and isinstance(sub.value, ast.Name) and sub.value.id not in func.params and field_under_kind(func, sub.value.id, sub.attr, name):
+                    return f"under '{sub.value.id}.{sub.attr}', a field of a helper's answer that is only set for a known kind of token"
         if func.name != "next_token" and depth < 3:
             callers = [s for s in prog.callers.get(func.qualname, []) if s.caller.cls is not None and func.cls in s.caller.cls.mro or s.caller.cls == func.cls]
             reasons = []
